@@ -1,7 +1,7 @@
 (* Small shared lemmas: ranges over N for finite checks lifted with forallb_forall. *)
 From Coq Require Import NArith List Lia Bool.
 Import ListNotations.
-Open Scope N_scope.
+Local Open Scope N_scope.
 
 Fixpoint range (n : nat) (s : N) : list N :=
   match n with O => [] | S k => s :: range k (s + 1) end.
